@@ -97,4 +97,12 @@ PROPS = {
         partial=["AccessorsAgree (the five frameworks hand the handler the same raw strings / presence bits and dispatch the same requests) is not provable in Lean; sampled by the rig stream"],
         assumptions=[],
     ),
+    "C11": dict(
+        streams=[dict(mode="ir", quick=1200, thorough=30000, workers=14, driver_workers=8)],
+        rule=IR_RULE + "; the 3.0 and the 3.1 document of the SAME IR are translated to a dialect-free form (exclusive bounds, empty required/parameters/security, blank descriptions) and diffed member by member (implementation vs implementation, no model in the loop); integer parameter bounds of both documents are also compared with the Lean converter model; non-trivial = both documents emitted with at least one operation; distinct = distinct document",
+        trusted_base=COMMON_TB + IR_TB + ["the dialect translation normDoc (Lean, driver side) - its numeric-bound part is the proved `dialect`"],
+        partial=["converter equivalence is proved for the numeric-bound rules (gt/gte/lt/lte/min/max); string/array/enum rules are compared on the real documents only",
+                 "findings C11-F1 (3.0-only `default` response), C11-F2 (non-string enum members rendered as strings in 3.0), C11-F3 (two bounds of one side), C11-F4 (3.1 refuses a required self-reference), C07-F1 (3.0 usage sites rewrite shared components)"],
+        assumptions=[],
+    ),
 }
